@@ -7,12 +7,12 @@ PROP=$1; N=$2; DEST=$3; PKG=$4; shift 4
 SRC=/tmp/mut-$PROP/_mutation/$N
 WT=/tmp/sv-$PROP-$N
 OUT=/verif/seeded/$PROP-$N
-export GOFLAGS=-mod=mod GOPROXY=off
+export GOFLAGS=-mod=mod GOPROXY=off CGO_LDFLAGS=-L/verif/build/stublib
 git -C /repo worktree remove --force $WT 2>/dev/null
 git -C /repo worktree add -q --detach $WT HEAD || exit 2
 cd $WT
 DEMO=$(ls $SRC/*_test.go $SRC/*.go 2>/dev/null | head -1)
-cp "$DEMO" "$WT/$DEST"
+mkdir -p "$(dirname "$WT/$DEST")"; cp "$DEMO" "$WT/$DEST"
 TESTNAME=$(grep -o "^func Test[A-Za-z0-9_]*" "$DEMO" | sed 's/func //' | paste -sd'|')
 clean=$(go test -count=1 -run "^($TESTNAME)\$" $PKG 2>&1 | tail -n 3 | tr '\n' ' ')
 if ! git apply $SRC/patch.diff; then echo "PATCH DOES NOT APPLY on HEAD"; exit 2; fi
